@@ -10,7 +10,7 @@ import corr  # noqa
 from lib import f32, f2h, h2f  # noqa
 
 U = 2.0 ** -24
-OFF_FAMS = ["whole", "wholerow", "frac", "affine", "smooth", "far", "mixed"]
+OFF_FAMS = ["whole", "wholerow", "frac", "affine", "smooth", "far", "mixed", "nearwhole"]
 DATA_FAMS = ["impulse", "poly", "gauss", "noise"]
 
 
